@@ -197,6 +197,8 @@ func TestVerifFlexFecExec(t *testing.T) {
 		}
 		out.Emit(vfM{"a": "reset", "level": sc.Level})
 		vfFecPool(sc.Poison)
+		kept := out.NewKept() // repair packets returned by EncodeFec belong to the caller: re-read at the end of the script
+		vfFecKept = kept
 		switch sc.Level {
 		case "wire":
 			vfFecRunWire(t, &sc, out)
@@ -213,8 +215,11 @@ func TestVerifFlexFecExec(t *testing.T) {
 		default:
 			t.Fatalf("VERIF-INFRA unknown level %q", sc.Level)
 		}
+		kept.Flush()
 	}
 }
+
+var vfFecKept *vfKept //nolint:gochecknoglobals
 
 // level "wire": self-check of the specification's wire layout against pion/rtp's Marshal.
 func vfFecRunWire(t *testing.T, sc *vfFecScript, out *vfWriter) {
@@ -258,6 +263,8 @@ func vfFecRunEnc(t *testing.T, sc *vfFecScript, out *vfWriter) {
 			outs := make([]vfM, 0, len(repairs))
 			for j := range repairs {
 				outs = append(outs, vfFecRec(&repairs[j].Header, repairs[j].Payload))
+				rp := &repairs[j]
+				vfFecKept.Keep(func() any { return vfFecRec(&rp.Header, rp.Payload) })
 			}
 			out.Emit(vfM{
 				"a": "batch", "kind": "enc", "s": st.S, "ssrc": st.SSRC, "fecssrc": st.FecSSRC, "fecpt": int(st.FecPT),
